@@ -18,12 +18,12 @@ from symx.symfile import SymFile
 PROPERTY_ID = "C10"
 LEVEL = "model_checking"
 RULE = (
-    "tuple of sequences drawn from 16 block orders (4 of them individually non-conformant) covering HQ/LD profiles, versions 1-3, levels 0/1/66, pictures vs fragments, "
+    "tuple of sequences drawn from 17 block orders (4 of them individually non-conformant) covering HQ/LD profiles, versions 1-3, levels 0/1/66, pictures vs fragments, "
     "fields; one member has symbolic next/previous offsets, picture numbers and fragment offsets (so it may be non-conformant); "
     "per path: verdict of the concatenation = conjunction of the parts, same exception class, pictures concatenate"
 )
 BOUNDS = {
-    "quick": "all ordered pairs of 16 sequences, symbolic member second; 40 seeded pairs with the symbolic member first",
+    "quick": "all ordered pairs of 17 sequences, symbolic member second; 40 seeded pairs with the symbolic member first",
     "thorough": "all ordered pairs with the symbolic member at either position; 300 seeded triples with the symbolic member at each position",
 }
 OUTSIDE = "more than 3 sequences; payload bytes are concrete"
@@ -46,6 +46,7 @@ SEQS = [
     ["SH_L66", "PIC", "SH_L66", "PIC", "EOS"],
     ["SH", "PADU", "AUXU", "PIC", "PAD3", "EOS"],
     ["SH_V3", "EOS"],
+    ["SH_PC", "PC1", "PC2", "PC3", "EOS"],  # custom -> default -> custom quantisation matrix, changing transform parameters
     # individually non-conformant members (must stay rejected, with the same error, wherever they are placed)
     ["SH_V3", "PIC", "EOS"],                  # major_version too high
     ["SH_FIELDS", "PIC", "EOS"],              # odd number of fields
@@ -97,14 +98,18 @@ def _decode(cells):
         pics.append((pic["pic_num"], [[list(r) for r in pic[c]] for c in ("Y", "C1", "C2")], dict(vp), pcm))
 
     cls, st, exc = dec.run_decoder(SymFile(cells) if not isinstance(cells, (bytes, bytearray)) else io.BytesIO(cells), on_picture=cb)
+    if dec.tables_digest() != dec.PRISTINE_TABLES:
+        cls = ("EXC", "ModuleLevelTableModified", "decoding changed a module-level table (quantisation matrices / level patterns / presets)")
     return cls, pics
 
 
 def _compare(parts, decode, prove, prove_eq):
     """The property, shared by the symbolic harness and the plain replay."""
     whole = [c for p in parts for c in p]
+    # the parts alone first, last part first: state leaking through module-level tables (not only through State) then
+    # shows up as a difference between a part decoded alone and the same part inside the concatenation
+    single = [decode(p) for p in reversed(parts)][::-1]
     cw, pw = decode(whole)
-    single = [decode(p) for p in parts]
     all_ok = all(c[0] == "ok" for c, _ in single)
     prove((cw[0] == "ok") == all_ok, "verdict-of-concatenation", [list(cw), [list(c) for c, _ in single]])
     # first failing part decides the class
